@@ -149,6 +149,14 @@ CLAIMS["C17"] = dict(
     technique="code-independent SAT lemmas that the chess specification commutes with mirror/flip + colour-symbolic code==spec contracts (C01-C04) + direct symmetry contracts on colour-specific leaves",
 )
 
+CLAIMS["C06"] = dict(
+    category="proof",
+    text="Rendering half. Display::fmt of the builder is under contract (Kani, bytes captured in a fixed sink) for every side to move and en-passant file — the field is '-' or the passed-over square on rank 3/6 as the FEN standard specifies (the obligation that exposed the rank-4/5 defect, repaired by a fix: commit) — and for all 16 castle-right combinations (KQkq subset or '-'), six well-formed fields. The en-passant STATE behind the field is covered by O2.1e/O2.1a (recorded only after a double push beside an enemy pawn, always when a legal capture exists) in C02. Structured half of the round trip: builder -> board reproduces placement, side, rights, en-passant, check/pin and hash for a fully symbolic builder (O7.1, C07), and from-scratch check/pin data equal the incrementally maintained data (O3.1 here, O2.1b in C03), which is what makes a position reached by play == the re-parsed one. Thorough tier adds the placement field with one symbolic man and Board -> builder.",
+    design_ref="DESIGN.md §6 C06",
+    note=TRUST + "NOT under contract: FEN text PARSING (BoardBuilder::from_str — str::split / contains / String are out of reach of CBMC within a check's time budget and of Verus) and the placement field for more than one man (Piece::to_string/format!/to_uppercase); so 'parse(render(x)) == x' is decided for the structured conversions only, and reading a standard writer's FEN rests on the parser using only the FILE of the en-passant field (by inspection).",
+    technique="Kani/CBMC byte-exact render contracts on Display::fmt through a fixed sink (en-passant, side, castling fields) + structured round-trip contracts on the builder conversions + check/pin from-scratch obligations",
+)
+
 NOT_YET = {}
 
 
